@@ -2834,3 +2834,16 @@ M("C05", "mp-stuck-rotate-args-crossed", WALK,
   "                return logic_block.rotate_path(\n                    previous_node_class, previous_puml_node\n                )",
   "                return logic_block.rotate_path(\n                    previous_puml_node, previous_node_class\n                )",
   "R5.21", "model node and diagram node stored in each other's list")
+
+M("C07", "scc-smallest-first", DL,
+  "    scc_events = list(strongly_connected_components(graph))",
+  "    scc_events = sorted(strongly_connected_components(graph), key=len)",
+  "R7.1", "components re-ordered (seed C01-u)")
+M("C01", "scc-reversed", DL,
+  "    scc_events = list(strongly_connected_components(graph))",
+  "    scc_events = reversed(list(strongly_connected_components(graph)))",
+  "R1.15", "outer loops collapsed before the loops behind their break paths")
+T("C07", "twin-scc-direct-iteration", DL,
+  "    scc_events = list(strongly_connected_components(graph))\n    for scc_nodes in scc_events:",
+  "    for scc_nodes in tuple(strongly_connected_components(graph)):",
+  "same order, no temporary")
